@@ -1,16 +1,16 @@
 #!/bin/bash
-# Confirm every sub-agent mutant myself in a scratch worktree: patch applies, demo FAILS with it, test suite still passes
+# Confirm every seeded change under /verif/seeded myself in a scratch worktree: patch applies, demo FAILS with it, test suite still passes
 # (stable set), demo PASSES without it.  Results -> $HOME/mutant_confirm.log
 LOG=$HOME/mutant_confirm.log; : > $LOG
 WT=/tmp/wtc; rm -rf $WT; git -C /repo worktree prune; git -C /repo worktree add -q --detach $WT HEAD || exit 1
-for id in $(seq -w 1 20); do for m in mutA mutB; do
-  d=/tmp/wt/out/C$id/$m; [ -f $d/patch.diff ] || { echo "C$id $m MISSING" >> $LOG; continue; }
+for d in /verif/seeded/*/; do d=${d%/}; id=$(basename $d); m=""
+  [ -f $d/patch.diff ] || { echo "$id MISSING" >> $LOG; continue; }
   git -C $WT checkout -q -- . ; git -C $WT clean -fdq
   ( cd $WT && PYTHONPATH=$WT timeout 600 /venv/bin/python $d/demo.py > /dev/null 2>&1 ); base=$?
-  git -C $WT apply $d/patch.diff 2>/dev/null || { echo "C$id $m PATCH-DOES-NOT-APPLY" >> $LOG; continue; }
+  git -C $WT apply $d/patch.diff 2>/dev/null || { echo "$id PATCH-DOES-NOT-APPLY" >> $LOG; continue; }
   ( cd $WT && PYTHONPATH=$WT timeout 600 /venv/bin/python $d/demo.py > /dev/null 2>&1 ); mut=$?
   suite=$(python3 /verif/tools/baseline_check.py $WT 2>&1 | grep -v conda | grep "missing=" )
-  echo "C$id $m demo_without=$base demo_with=$mut suite: $suite" >> $LOG
-done; done
+  echo "$id demo_without=$base demo_with=$mut suite: $suite" >> $LOG
+done
 git -C $WT checkout -q -- . ; git -C /repo worktree remove --force $WT
 echo DONE >> $LOG
